@@ -285,6 +285,11 @@ func (c02) Gen(rs uint64, tier string, race bool) interface{} {
 	}
 	if c.Mode == "file" || c.Mode == "multifile" {
 		c.Ext = r.PickS("", "", ".gz", ".gz", ".gz", ".gz", ".gz", ".xz")
+		if r.Chance(0.06) {
+			// a suffix in another case, or in the middle of the name: what the writing side takes it for (plain), the
+			// reading side must take it for
+			c.Ext = r.PickS(".GZ", ".Gz", ".XZ", ".gz.txt", ".xz.fa", ".gzip")
+		}
 		c.Stale = r.Pick(0, 0, 0, 1, 300, 6000, 120000)
 	}
 	if c.Mode == "multifile" {
